@@ -410,7 +410,7 @@ fn check<K: Kmer + Send + Sync>(c: &Case) -> CheckResult {
         .label(c.dangling, "dangling_exts"))
 }
 
-fn big_job<K: Kmer + Send + Sync + 'static>(name: &'static str, n_nodes: usize) -> Box<dyn Job> {
+fn big_job<K: Kmer + Send + Sync + 'static>(name: &'static str, size_class: &'static str, n_nodes: usize) -> Box<dyn Job> {
     let run = move |seed: u64| -> Result<Report, String> {
         let k = K::k();
         // one long pseudo-random sequence (plus a second one) cut into ~n_nodes nodes (expected node length k+2)
@@ -430,7 +430,8 @@ fn big_job<K: Kmer + Send + Sync + 'static>(name: &'static str, n_nodes: usize) 
     };
     let run2 = run.clone();
     EnumJob {
-        name: format!("large/{}/{}nodes", name, n_nodes),
+        // the job name carries a size class, not the node count, so that saved replays stay valid when sizes are retuned
+        name: format!("large/{}/{}", name, size_class),
         run: Box::new(move |env: &Env, rep: &mut JobReport| {
             for round in 0..env.pick(1u64, 3u64) {
                 let seed = env.job_seed("large") ^ round;
@@ -444,6 +445,7 @@ fn big_job<K: Kmer + Send + Sync + 'static>(name: &'static str, n_nodes: usize) 
                             || json!({"nodes": r.nodes, "builds": r.builds, "threads_by_pool": r.threads_by_pool, "absent_queries": r.absent}),
                         );
                         rep.extra.insert(format!("round{}_nodes", round), json!(r.nodes));
+                        rep.extra.insert("requested_nodes".into(), json!(n_nodes));
                         rep.extra.insert(format!("round{}_hashing_threads_by_pool_size", round), json!(r.threads_by_pool));
                         rep.extra.insert(format!("round{}_builds_compared", round), json!(r.builds));
                     }
@@ -470,9 +472,9 @@ fn small_job<K: Kmer + Send + Sync + 'static>(name: &'static str, q: u32, t: u32
 #[cfg(not(fuzzing))]
 pub fn jobs(env: &Env) -> Vec<Box<dyn Job>> {
     let mut out: Vec<Box<dyn Job>> = vec![
-        big_job::<T32>("T32", env.pick(150_000, 600_000)),
-        big_job::<T16>("T16", env.pick(30_000, 100_000)),
-        big_job::<T32>("T32", 3_000),
+        big_job::<T32>("T32", "XL", env.pick(150_000, 600_000)),
+        big_job::<T16>("T16", "L", env.pick(30_000, 100_000)),
+        big_job::<T32>("T32", "M", 3_000),
     ];
     out.push(small_job::<T5>("T5", 150, 4000));
     out.push(small_job::<T8>("T8", 150, 4000));
